@@ -148,6 +148,15 @@ def generated_cases(chk):
         out.append(Case("g-c10/" + tag, roots, files))
         out[-1].expected_symbols = expected
         out[-1].fresh_k = 8
+    # colliding parameter names under the asm-block hygiene prefix; several offending things of one kind
+    for _ in range(60 * scale):
+        roots, files, tag = c10_gen.fn_hygiene(r)
+        out.append(Case("g-c10/" + tag, roots, files))
+        out[-1].fresh_k = 8
+    for _ in range(50 * scale):
+        roots, files, tag = c10_gen.multi_fault(r)
+        out.append(Case("g-c10/" + tag, roots, files))
+        out[-1].fresh_k = 8
     # generators of the other properties
     try:
         import c13_gen
@@ -459,7 +468,7 @@ def stream_fresh(chk, cases, status, real, k):
             rep2 = c.replay()
             rep2["argv"] = c.command[1:]
             compare_fresh(chk, "%s with its own command line %r" % (c.corpus, c.command[1:]), extra, rep2, "fresh")
-    dist["ambiguous_and_module_programs_8_runs"] = sum(1 for i in idx if cases[i].fresh_k)
+    dist["directed_family_programs_8_runs"] = sum(1 for i in idx if cases[i].fresh_k)
     dist["failing_programs"] = sum(1 for i in idx if status[i] == "ERR")
     chk.count("fresh-processes", len(idx), runs=sum(max(k, cases[i].fresh_k) for i in idx), **dist)
     chk.cov["traces_validated_against_impl"] += len(idx)
@@ -471,18 +480,64 @@ class Fmt:
         self.s = s
 
 
+FORMAT_NAMES = ["binary", "annotated", "annotatedbin", "binstr", "hexstr", "bindump", "hexdump", "mif", "intelhex", "deccomma", "hexcomma",
+                "decspace", "hexspace", "decc", "hexc", "logisim8", "logisim16", "addrspan", "tcgame", "tcgamebin", "symbols", "mesen-mlb", "nosuch"]
+
+
+def first_of_several_formats(rng):
+    """format strings with SEVERAL unknown / unconsumed arguments (the diagnostic names one of them): independent of
+    tools/translate_cli.py, so that this family still runs when that translator cannot read a changed driver.rs"""
+    out = []
+    unknown = ["zeta:1", "alpha:2", "foo:1", "bar:2", "baz:3", "q", "w", "e", "mm:0", "kappa:9"]
+    valid = ["base:16", "base:2", "group:2", "group:3", "addr_unit:8", "addr_unit:16"]
+    for name in FORMAT_NAMES:
+        out.append(",".join([name, "base:16", "group:2"]))                       # unconsumed for the formats that take neither
+        out.append(",".join([name, "base:16", "zeta:1", "alpha:2"]))
+        out.append(",".join([name, "addr_unit:16", "group:2", "base:16"]))
+        for _ in range(4):
+            n = rng.range(2, 5)
+            args = rng.shuffle(unknown)[:n] + (rng.shuffle(valid)[:rng.below(3)])
+            out.append(",".join([name] + rng.shuffle(args)))
+    seen, res = set(), []
+    for s in out:
+        if s not in seen:
+            seen.add(s)
+            res.append(s)
+    return res
+
+
+FIRST_OF_SEVERAL_ARGV = [
+    ["main.asm", "--zeta", "--alpha"], ["main.asm", "--alpha", "--zeta", "-Q"], ["main.asm", "-Z", "-Y", "-X"],
+    ["main.asm", "-dA=1=2", "-dB=3=4"], ["main.asm", "-dB=", "-dA="], ["main.asm", "-dnosuch1", "-dnosuch2", "-dnosuch3"],
+    ["main.asm", "-dnosuch2=5", "-dnosuch1=6", "-q"], ["nofile1.asm", "nofile2.asm", "nofile3.asm"], ["nofile2.asm", "main.asm", "nofile1.asm"],
+    ["main.asm", "-f", "nosuch1", "--", "-f", "nosuch2"], ["main.asm", "-f", "hexstr,zz:1,yy:2", "--", "-f", "annotated,xx:1,ww:2"],
+    ["main.asm", "-t", "0", "-t", "x"], ["main.asm", "--color=maybe", "--color=perhaps"], ["main.asm", "-o", "a.bin", "-o", "b.bin"],
+    ["main.asm", "err.asm", "-p"], ["err.asm", "main.asm", "iter.asm", "-p"], ["main.asm", "main.asm", "-p"],
+]
+
+
 def stream_cli(chk, bins, real, K, k):
-    import translate_cli, cli_gen
+    import cli_gen
     from props import c18
     quick = chk.tier == "quick"
-    t = translate_cli.tables(vlib.REPO)
-    fcases = cli_gen.fmt_cases(chk.rng.fork("fmt"), t, quick)
+    kk = max(k, 8)
+    t = None
+    try:
+        import translate_cli
+        t = translate_cli.tables(vlib.REPO)
+    except Exception as e:      # the C18 translator cannot read the changed driver: the directed families below do not need it
+        chk.cov["cli_tables_unavailable"] = repr(e)[:300]
     strings = []
     seen = set()
-    for s, _, _ in fcases:
-        if s not in seen and "\t" not in s and "\n" not in s and "\0" not in s:
-            seen.add(s)
-            strings.append(s)
+    several = first_of_several_formats(chk.rng.fork("several"))
+    for s in several:
+        seen.add(s)
+        strings.append(s)
+    if t is not None:
+        for s, _, _ in cli_gen.fmt_cases(chk.rng.fork("fmt"), t, quick):
+            if s not in seen and "\t" not in s and "\n" not in s and "\0" not in s:
+                seen.add(s)
+                strings.append(s)
     # directed: several unknown parameters in every order (the F16 family), duplicates, mixtures of valid and unknown
     for name in ("binary", "annotated", "intelhex", "hexdump", "symbols", "nosuch"):
         for perm in (["foo:1", "bar:2", "baz:3"], ["baz:3", "bar:2", "foo:1"], ["bar:2", "foo:1", "baz:3"], ["q", "w", "e", "r", "t", "y"],
@@ -499,30 +554,32 @@ def stream_cli(chk, bins, real, K, k):
     for o in objs:
         if o.s.count(",") >= 2:
             chk.nontriv(("fmt", o.s))
-    stream_inprocess(chk, objs, lambda o, mode, kk: "F\t%s\t%s\t%s" % (mode, kk, vlib.hx(o.s)), bins, K, "format-strings",
+    stream_inprocess(chk, objs, lambda o, mode, kx: "F\t%s\t%s\t%s" % (mode, kx, vlib.hx(o.s)), bins, K, "format-strings",
                      lambda o: "-f %r" % o.s, lambda o: {"format": o.s}, lambda o: "F\tV\t1:0\t%s" % vlib.hx(o.s))
-    # fresh processes: format strings with >= 2 parameters, and whole command lines
-    pick = chk.rng.fork("fmtreal").shuffle(many)[:150 if quick else 3000]
-    cmds, spell = cli_gen.command_cases(chk.rng.fork("cmd"), t, quick, c18.CMD_INPUTS)
-    cmds = [cs for cs in cmds if c18.sane_for_disk(cs)]
-    cmds = chk.rng.fork("cmdpick").shuffle(cmds)[:150 if quick else 2500]
-    jobs = [("-f %r" % s, ["customasm", "main.asm", "-p", "-f", s]) for s in pick] + [("command line %r" % (cs["argv"][1:],), cs["argv"]) for cs in cmds]
+    # fresh processes (only a new process reseeds the hasher for sure): the first-of-several family always, >= 8 processes each;
+    # a sample of the other format strings with >= 2 parameters, and whole command lines
+    jobs = [("-f %r" % s, ["customasm", "main.asm", "-q", "-p", "-f", s], kk) for s in several]
+    jobs += [("command line %r" % (a,), ["customasm"] + a, kk) for a in FIRST_OF_SEVERAL_ARGV]
+    others = [s for s in many if s not in set(several)]
+    jobs += [("-f %r" % s, ["customasm", "main.asm", "-p", "-f", s], k) for s in chk.rng.fork("fmtreal").shuffle(others)[:100 if quick else 3000]]
+    if t is not None:
+        cmds, spell = cli_gen.command_cases(chk.rng.fork("cmd"), t, quick, c18.CMD_INPUTS)
+        cmds = [cs for cs in cmds if c18.sane_for_disk(cs)]
+        cmds = chk.rng.fork("cmdpick").shuffle(cmds)[:120 if quick else 2500]
+        jobs += [("command line %r" % (cs["argv"][1:],), cs["argv"], k) for cs in cmds]
 
     def work(j):
-        what, argv = jobs[j]
-        outs = []
-        for r in range(k):
-            outs.append(c18.run_real(real, argv, os.path.join(SCRATCH, "cli_%d" % j)))
-        return outs
+        what, argv, n = jobs[j]
+        return [c18.run_real(real, argv, os.path.join(SCRATCH, "cli_%d" % j)) for _ in range(n)]
     with ThreadPoolExecutor(vlib.NCPU) as ex:
         results = list(ex.map(work, range(len(jobs))))
-    dist = {"exit0": 0, "exit1": 0, "other_exit": 0}
-    for (what, argv), outs in zip(jobs, results):
+    dist = {"exit0": 0, "exit1": 0, "other_exit": 0, "first_of_several_8_runs": len(several) + len(FIRST_OF_SEVERAL_ARGV)}
+    for (what, argv, n), outs in zip(jobs, results):
         rc = outs[0][0]
         dist["exit0" if rc == 0 else "exit1" if rc == 1 else "other_exit"] += 1
         compare_fresh(chk, what, outs, {"argv": argv[1:], "input_files": "the fixed files of tools/props/c18.py (INPUT_FILES)"}, "cli-fresh")
         chk.nontriv(("cmd", tuple(argv)))
-    chk.count("command-lines-fresh", len(jobs), runs=len(jobs) * k, **dist)
+    chk.count("command-lines-fresh", len(jobs), runs=sum(j[2] for j in jobs), **dist)
     chk.cov["traces_validated_against_impl"] += len(jobs)
 
 
@@ -578,20 +635,32 @@ def run(chk):
         if hashy({n: d for n, d in c.files.items() if not n.startswith("<std>/")}):
             chk.nontriv(("prog", c.key()))
     chk.cov["program_sources"] = tags
+    timing["generate"] = round(time.time() - t0, 1)
     status = stream_inprocess(chk, cases, lambda c, mode, kk: c.line(mode, kk), bins, K, "programs-in-process",
                               lambda c: "%s %r (budget %d, static %d, matching %d)" % (c.corpus or c.tag, c.roots, c.budget, c.stat, c.matching),
                               lambda c: c.replay(), lambda c: c.line("V", "1:0"))
-    stream_symbol_order(chk, cases, status, bins)
     timing["in_process"] = round(time.time() - t0, 1)
-    stream_fresh(chk, cases, status, real, k)
-    timing["fresh"] = round(time.time() - t0, 1)
-    stream_cli(chk, bins, real, K, k)
-    timing["cli"] = round(time.time() - t0, 1)
+    failures = []
+
+    def guarded_stream(name, f):
+        # one stream's infrastructure failure must not keep the others from looking for a concrete differing pair
+        try:
+            f()
+        except Exception as e:
+            import traceback
+            traceback.print_exc()
+            failures.append((name, e))
+        timing[name] = round(time.time() - t0, 1)
+    guarded_stream("symbol_order", lambda: stream_symbol_order(chk, cases, status, bins))
+    guarded_stream("fresh", lambda: stream_fresh(chk, cases, status, real, k))
+    guarded_stream("cli", lambda: stream_cli(chk, bins, real, K, k))
     for i in (0, len(cases) // 3, len(cases) // 2, len(cases) - 1):
         c = cases[i]
         chk.sample({"tag": c.tag, "corpus": c.corpus, "roots": c.roots, "options": [c.budget, c.stat, c.matching], "status": status[i],
                     "main": c.files[c.roots[0]].decode("utf-8", "replace")[:400] if c.roots[0] in c.files else None})
     shutil.rmtree(SCRATCH, ignore_errors=True)
+    for name, e in failures:
+        chk.violation("check infrastructure failure in stream %s: %r" % (name, e), {"kind": "infrastructure", "stream": name, "error": repr(e)}, found=False)
     if scan_failure is not None:
         chk.violation("the C10 inventory scan cannot read the current source: %r" % (scan_failure,), {"kind": "inventory", "error": repr(scan_failure)}, found=False)
     chk.assumptions = vlib.TRUSTED_BASE + [
